@@ -33,6 +33,7 @@
 //! Order independence of the counts is *checked*: the search runs twice, the second time with the
 //! successor order reversed; states, transitions, the outcome histogram and the violation keys must
 //! be identical (a too-coarse key would make them depend on which history represents a state).
+mod cfgsrc;
 mod model;
 mod real;
 mod replay;
@@ -244,6 +245,7 @@ fn check_middleware(
     p: &pavex::cookie::Processor,
     twin: &RawFinal,
     mw: &MwObs,
+    ttl_secs: u64,
 ) -> (String, Option<Viol>) {
     use real::{RawCookie, classify_cookie, name_value_of};
     let will_e = p.will_encrypt(cc.name);
@@ -362,7 +364,7 @@ fn check_middleware(
             ];
             if kind == "set" {
                 let ss = real::same_site_of(cc.same_site);
-                let want_max_age = if cfg.persistent { Some(real::TTL_SECS as i64) } else { None };
+                let want_max_age = if cfg.persistent { Some(ttl_secs as i64) } else { None };
                 checks.extend([
                     attr("same_site", c.same_site() == ss, format!("SameSite {:?}, configured {:?}", c.same_site(), ss)),
                     attr("secure", c.secure().unwrap_or(false) == cc.secure, format!("Secure {:?}, configured {}", c.secure(), cc.secure)),
@@ -370,7 +372,7 @@ fn check_middleware(
                     attr(
                         "max_age",
                         c.max_age().map(|d| d.as_secs()) == want_max_age,
-                        format!("Max-Age {:?}, expected {:?} (kind {}, ttl {}s)", c.max_age(), want_max_age, if cfg.persistent { "persistent" } else { "session" }, real::TTL_SECS),
+                        format!("Max-Age {:?}, expected {:?} (kind {}, ttl {}s)", c.max_age(), want_max_age, if cfg.persistent { "persistent" } else { "session" }, ttl_secs),
                     ),
                     attr("expires", c.expires_datetime().is_none(), format!("Expires {:?} on a non-removal cookie", c.expires_datetime())),
                     attr("wire-http_only", h.contains("; HttpOnly") == cc.http_only, format!("Set-Cookie header {h:?}, configured http_only {}", cc.http_only)),
@@ -381,7 +383,7 @@ fn check_middleware(
                     ),
                     attr(
                         "wire-max_age",
-                        h.contains("; Max-Age=") == cfg.persistent && (!cfg.persistent || h.contains(&format!("; Max-Age={}", real::TTL_SECS))),
+                        h.contains("; Max-Age=") == cfg.persistent && (!cfg.persistent || h.contains(&format!("; Max-Age={}", ttl_secs))),
                         format!("Set-Cookie header {h:?}, persistent {}", cfg.persistent),
                     ),
                     attr(
@@ -431,7 +433,7 @@ fn product_at_finalize_point(ctx: &Ctx, procs: &Processors, cfg: &Cfg, hist: &[E
             ctx,
             cfg,
             hist,
-            &ReplayOpts { cookie: cc, oracles: false, narrative: false, final_mode: FinalMode::Direct, leak_check: false, hint: Some(&no_debug), symmetry: SYMMETRY.load(std::sync::atomic::Ordering::Relaxed) },
+            &ReplayOpts { cookie: cc, oracles: false, narrative: false, final_mode: FinalMode::Direct, leak_check: false, hint: Some(&no_debug), symmetry: SYMMETRY.load(std::sync::atomic::Ordering::Relaxed), config_override: None },
         )
         .unwrap_or_else(|e| machinery_error(&format!("C12 twin replay failed: {e} ({:?})", history_json(hist))));
         let Some(raw) = twin.raw_final else { machinery_error("C12 twin replay produced no finalize observation") };
@@ -441,12 +443,12 @@ fn product_at_finalize_point(ctx: &Ctx, procs: &Processors, cfg: &Cfg, hist: &[E
                 ctx,
                 cfg,
                 hist,
-                &ReplayOpts { cookie: cc, oracles: false, narrative: false, final_mode: FinalMode::Middleware(p), leak_check: false, hint: Some(&no_debug), symmetry: SYMMETRY.load(std::sync::atomic::Ordering::Relaxed) },
+                &ReplayOpts { cookie: cc, oracles: false, narrative: false, final_mode: FinalMode::Middleware(p), leak_check: false, hint: Some(&no_debug), symmetry: SYMMETRY.load(std::sync::atomic::Ordering::Relaxed), config_override: None },
             )
             .unwrap_or_else(|e| machinery_error(&format!("C12 middleware replay failed: {e}")));
             let Some(mw) = out.mw else { machinery_error("C12 middleware replay produced no observation") };
             stats.mw_calls += 1;
-            let (label, viol) = check_middleware(cfg, cc, crypto, p, &raw, &mw);
+            let (label, viol) = check_middleware(cfg, cc, crypto, p, &raw, &mw, real::TTL_SECS);
             *stats.mw_hist.entry(label).or_default() += 1;
             if let Some(vl) = viol {
                 let f = stats.found.entry(vl.key.clone()).or_default();
@@ -467,7 +469,7 @@ fn product_at_finalize_point(ctx: &Ctx, procs: &Processors, cfg: &Cfg, hist: &[E
 #[allow(clippy::too_many_arguments)]
 fn bfs(ctx: &Ctx, procs: &Processors, cfg: &Cfg, bounds: (usize, usize), mode: Mode, deadline: Instant, rev: bool, cookie_cfgs: &[CookieCfg]) -> Stats {
     let default_cookie = CookieCfg::default_cfg();
-    let opts = ReplayOpts { cookie: &default_cookie, oracles: mode == Mode::C11, narrative: false, final_mode: FinalMode::Direct, leak_check: mode == Mode::C12, hint: None, symmetry: SYMMETRY.load(std::sync::atomic::Ordering::Relaxed) };
+    let opts = ReplayOpts { cookie: &default_cookie, oracles: mode == Mode::C11, narrative: false, final_mode: FinalMode::Direct, leak_check: mode == Mode::C12, hint: None, symmetry: SYMMETRY.load(std::sync::atomic::Ordering::Relaxed), config_override: None };
     let mut stats = Stats::default();
     let mut visited: HashSet<u128> = HashSet::new();
     let mut finalized: HashSet<u128> = HashSet::new();
@@ -488,7 +490,7 @@ fn bfs(ctx: &Ctx, procs: &Processors, cfg: &Cfg, bounds: (usize, usize), mode: M
         if node.info.open && node.info.ops_used < bounds.1 {
             stats.client_get_in_place += 2;
         }
-        let opts = ReplayOpts { cookie: &default_cookie, oracles: mode == Mode::C11, narrative: false, final_mode: FinalMode::Direct, leak_check: mode == Mode::C12, hint: Some(&node.info), symmetry: SYMMETRY.load(std::sync::atomic::Ordering::Relaxed) };
+        let opts = ReplayOpts { cookie: &default_cookie, oracles: mode == Mode::C11, narrative: false, final_mode: FinalMode::Direct, leak_check: mode == Mode::C12, hint: Some(&node.info), symmetry: SYMMETRY.load(std::sync::atomic::Ordering::Relaxed), config_override: None };
         for ev in children(&node.info, bounds, rev) {
             let mut h = node.hist.clone();
             h.push(ev);
@@ -580,18 +582,44 @@ fn run_all(ctx: &Ctx, procs: &Processors, bounds: (usize, usize), mode: Mode, de
 
 fn do_replay(ctx: &Ctx, procs: &Processors, mode: Mode, path: &std::path::Path) -> i32 {
     let case = verif_common::load_replay(path);
+    if case.get("config_document").is_some() {
+        println!("configuration-source case: {case}");
+        let docs = cfgsrc::documented();
+        let doc = &case["config_document"];
+        if let Ok(exp) = cfgsrc::expected_fields(doc, &docs) {
+            let fmt = if case["config_format"] == "yaml" { cfgsrc::Format::Yaml } else { cfgsrc::Format::Json };
+            match cfgsrc::deserialize(doc, fmt) {
+                Ok(c) => {
+                    let got = cfgsrc::fields(&c);
+                    for (path, (want, present)) in &exp {
+                        println!("  {path}: observed {} expected {want} ({})", got[path], if *present { "given in the document" } else { "key absent: documented default" });
+                    }
+                }
+                Err(e) => println!("  deserialisation failed: {e}"),
+            }
+        }
+        let v = cfgsrc::recheck(ctx, procs, &case).unwrap_or_else(|e| machinery_error(&format!("replay: {e}")));
+        if v.is_empty() {
+            println!("no violation");
+            return 0;
+        }
+        for x in &v {
+            println!("STILL VIOLATES [{}]: {}", x.key, x.what);
+        }
+        return 1;
+    }
     let cfg = case.get("config").and_then(Cfg::from_json).unwrap_or_else(|| machinery_error("replay: bad config"));
     let hist = case.get("history").and_then(history_from_json).unwrap_or_else(|| machinery_error("replay: bad history"));
     println!("replaying {} under {}", history_json(&hist), cfg.short());
     if let (Some(cc), Some(cr)) = (case.get("cookie_cfg").and_then(CookieCfg::from_json), case.get("crypto").and_then(|c| c.as_str()).and_then(Crypto::parse)) {
-        let twin = run(ctx, &cfg, &hist, &ReplayOpts { cookie: &cc, oracles: false, narrative: false, final_mode: FinalMode::Direct, leak_check: false, hint: None, symmetry: SYMMETRY.load(std::sync::atomic::Ordering::Relaxed) })
+        let twin = run(ctx, &cfg, &hist, &ReplayOpts { cookie: &cc, oracles: false, narrative: false, final_mode: FinalMode::Direct, leak_check: false, hint: None, symmetry: SYMMETRY.load(std::sync::atomic::Ordering::Relaxed), config_override: None })
             .unwrap_or_else(|e| machinery_error(&e));
         let p = real::processor(cr, cc.name, &ctx.keys);
-        let out = run(ctx, &cfg, &hist, &ReplayOpts { cookie: &cc, oracles: false, narrative: false, final_mode: FinalMode::Middleware(&p), leak_check: false, hint: None, symmetry: SYMMETRY.load(std::sync::atomic::Ordering::Relaxed) })
+        let out = run(ctx, &cfg, &hist, &ReplayOpts { cookie: &cc, oracles: false, narrative: false, final_mode: FinalMode::Middleware(&p), leak_check: false, hint: None, symmetry: SYMMETRY.load(std::sync::atomic::Ordering::Relaxed), config_override: None })
             .unwrap_or_else(|e| machinery_error(&e));
         let mw = out.mw.unwrap_or_else(|| machinery_error("no middleware observation"));
         let raw = twin.raw_final.unwrap_or_else(|| machinery_error("no finalize observation"));
-        let (label, viol) = check_middleware(&cfg, &cc, cr, &p, &raw, &mw);
+        let (label, viol) = check_middleware(&cfg, &cc, cr, &p, &raw, &mw, real::TTL_SECS);
         println!("cookie config {}, crypto {}", cc.to_json(), cr.name());
         println!("Session::finalize gives {:?}", real::classify_cookie(match &raw { RawFinal::Ok(c) => c.as_ref(), _ => None }));
         println!("finalize_session: {} ; headers {:?}", mw.result, mw.headers);
@@ -609,7 +637,7 @@ fn do_replay(ctx: &Ctx, procs: &Processors, mode: Mode, path: &std::path::Path) 
     }
     let _ = procs;
     let dc = CookieCfg::default_cfg();
-    let out = run(ctx, &cfg, &hist, &ReplayOpts { cookie: &dc, oracles: mode == Mode::C11, narrative: true, final_mode: FinalMode::Direct, leak_check: mode == Mode::C12, hint: None, symmetry: SYMMETRY.load(std::sync::atomic::Ordering::Relaxed) })
+    let out = run(ctx, &cfg, &hist, &ReplayOpts { cookie: &dc, oracles: mode == Mode::C11, narrative: true, final_mode: FinalMode::Direct, leak_check: mode == Mode::C12, hint: None, symmetry: SYMMETRY.load(std::sync::atomic::Ordering::Relaxed), config_override: None })
         .unwrap_or_else(|e| machinery_error(&format!("replay: {e}")));
     for l in &out.narrative {
         println!("  {l}");
@@ -665,6 +693,14 @@ fn main() {
     let budget = Duration::from_secs(num("budget-s").map(|s| s as u64).unwrap_or(if args.tier == Tier::Quick { 50 } else { 17 * 60 }));
     let deadline = started + budget;
 
+    // 0. C12: configuration-source dimension (documents x formats x finalize points)
+    let cs = if mode == Mode::C12 { Some(cfgsrc::run_all(&ctx, &procs)) } else { None };
+    if let Some(cs) = &cs {
+        println!(
+            "config-source: documents={} deserialisations={} finalize_runs={} violation_keys={} wall={:.1}s",
+            cs.documents, cs.deserialisations, cs.finalize_runs, cs.found.len(), started.elapsed().as_secs_f64()
+        );
+    }
     // 1. determinism / order independence on the first box: natural order vs reversed order
     let first = boxes[0];
     let t0 = Instant::now();
@@ -714,6 +750,11 @@ fn main() {
     let mut completed_boxes = if a.capped { vec![] } else { vec![json!({"requests": first.0, "ops_per_request": first.1, "states": a.states, "transitions": a.transitions, "wall_s": t_first})] };
     let mut partial: Option<Value> = None;
     let mut all_found = a.found.clone();
+    if let Some(cs) = &cs {
+        for (k, (v, case, n)) in &cs.found {
+            all_found.insert(k.clone(), Found { viol: Some(v.clone()), case: case.clone(), len: 0, count: *n, configs: 0 });
+        }
+    }
     for bx in boxes.iter().skip(1) {
         if Instant::now() + Duration::from_secs(if args.tier == Tier::Quick { 6 } else { 20 }) > deadline {
             break;
@@ -759,16 +800,25 @@ fn main() {
     let dc = CookieCfg::default_cfg();
     for (key, f) in &all_found {
         let Some(v) = &f.viol else { continue };
+        if f.case.get("config_document").is_some() {
+            let again = cfgsrc::recheck(&ctx, &procs, &f.case).unwrap_or_else(|e| machinery_error(&format!("re-execution failed: {e}")));
+            if !again.iter().any(|x| x.key == *key) {
+                machinery_error(&format!("nondeterministic verdict: {key} did not reproduce on re-execution of {}", f.case));
+            }
+            let what = format!("{} | smallest witness document: {} | {} occurrence(s) over the enumerated documents/formats/finalize points", v.what, f.case["config_document"], f.count);
+            rep.violation(key, &what, f.case.clone());
+            continue;
+        }
         let cfg = Cfg::from_json(&f.case["config"]).unwrap();
         let hist = history_from_json(&f.case["history"]).unwrap();
         let reproduced = if let (Some(cc), Some(cr)) = (f.case.get("cookie_cfg").and_then(CookieCfg::from_json), f.case.get("crypto").and_then(|c| c.as_str()).and_then(Crypto::parse)) {
-            let twin = run(&ctx, &cfg, &hist, &ReplayOpts { cookie: &cc, oracles: false, narrative: false, final_mode: FinalMode::Direct, leak_check: false, hint: None, symmetry: SYMMETRY.load(std::sync::atomic::Ordering::Relaxed) }).unwrap_or_else(|e| machinery_error(&e));
+            let twin = run(&ctx, &cfg, &hist, &ReplayOpts { cookie: &cc, oracles: false, narrative: false, final_mode: FinalMode::Direct, leak_check: false, hint: None, symmetry: SYMMETRY.load(std::sync::atomic::Ordering::Relaxed), config_override: None }).unwrap_or_else(|e| machinery_error(&e));
             let p = &procs.map[&(cr, cc.name)];
-            let out = run(&ctx, &cfg, &hist, &ReplayOpts { cookie: &cc, oracles: false, narrative: false, final_mode: FinalMode::Middleware(p), leak_check: false, hint: None, symmetry: SYMMETRY.load(std::sync::atomic::Ordering::Relaxed) }).unwrap_or_else(|e| machinery_error(&e));
-            let (_, viol) = check_middleware(&cfg, &cc, cr, p, &twin.raw_final.unwrap(), &out.mw.unwrap());
+            let out = run(&ctx, &cfg, &hist, &ReplayOpts { cookie: &cc, oracles: false, narrative: false, final_mode: FinalMode::Middleware(p), leak_check: false, hint: None, symmetry: SYMMETRY.load(std::sync::atomic::Ordering::Relaxed), config_override: None }).unwrap_or_else(|e| machinery_error(&e));
+            let (_, viol) = check_middleware(&cfg, &cc, cr, p, &twin.raw_final.unwrap(), &out.mw.unwrap(), real::TTL_SECS);
             viol.map(|x| x.key == *key).unwrap_or(false)
         } else {
-            let out = run(&ctx, &cfg, &hist, &ReplayOpts { cookie: &dc, oracles: mode == Mode::C11, narrative: false, final_mode: FinalMode::Direct, leak_check: mode == Mode::C12, hint: None, symmetry: SYMMETRY.load(std::sync::atomic::Ordering::Relaxed) })
+            let out = run(&ctx, &cfg, &hist, &ReplayOpts { cookie: &dc, oracles: mode == Mode::C11, narrative: false, final_mode: FinalMode::Direct, leak_check: mode == Mode::C12, hint: None, symmetry: SYMMETRY.load(std::sync::atomic::Ordering::Relaxed), config_override: None })
                 .unwrap_or_else(|e| machinery_error(&format!("re-execution failed: {e}")));
             out.violations.iter().any(|x| x.key == *key)
         };
@@ -837,6 +887,14 @@ fn main() {
         "middleware_calls": best.mw_calls,
         "middleware_outcome_histogram": best.mw_hist,
         "debug_outputs_checked": best.debug_checks,
+        "config_source": cs.as_ref().map(|cs| json!({
+            "rule": "every document {cookie:{..},state:{..}} where each documented key is absent / given a non-default value / (optional fields) null, tables also absent as a whole; deserialised with serde_json and with figment's YAML provider; every field must equal the documented default (absent key) or the given value; {} == {cookie:{}} == {state:{}} == default() == new(); 4 finalize points per document run through finalize_session with the deserialised configuration, cookie attributes checked against documented/given values",
+            "documents": cs.documents,
+            "deserialisations": cs.deserialisations,
+            "field_checks": cs.field_checks,
+            "finalize_runs": cs.finalize_runs,
+            "outcome_histogram": cs.hist,
+        })),
         "determinism_check": determinism,
         "violation_counts_first_box": all_found.iter().map(|(k, f)| (k.clone(), json!({"violating_transitions": f.count, "configurations": f.configs}))).collect::<BTreeMap<_, _>>(),
     });
